@@ -272,6 +272,16 @@ def rt_instr(ctx, name):
             n += 1
             ctx.state((b,))
             check_roundtrip(ctx, b, {'family': 'round trip: instructions', 'operands': 'hex'})
+    # the empty hex operand (the compiler reads it as 00 for one-byte operands): whatever bytes come out must list and recompile
+    if refasm.kind(name) == 'byte1':
+        for src in ('%s x' % name, 'true OP_%s x false' % name, 'true if { OP_%s x } false' % name):
+            try:
+                b = P_.compile_script(src)
+            except BaseException:
+                continue
+            n += 1
+            ctx.state((b,))
+            check_roundtrip(ctx, b, {'family': 'round trip: instructions', 'operands': 'empty hex'})
     ctx.evaluations += max(n - 1, 0)
 
 
